@@ -132,24 +132,28 @@ Opt(n) ==
            ELSE IF n = 3 THEN {Fam({2}, 0, "any", {FALSE}, "all", {"none"}, 100000)} ELSE {}
       [] Tier = "quick" ->
            CASE n = 2 -> {Fam({1, 2}, 1, "any", {FALSE}, "any", B1All \ {"last"}, 100000)}
-             [] n = 3 -> {Fam({1, 2}, 1, "any", {FALSE}, "all", {"none"}, 100000)}
+             [] n = 3 -> {Fam({1, 2}, 1, "any", {FALSE}, "topall", {"none"}, 100000)}
              [] n = 4 -> {Fam({2}, 0, "spin", {FALSE}, "all", {"none"}, 100000)}
              [] OTHER -> {}
       [] Tier = "thorough" ->
            CASE n = 2 -> {Fam({1, 2, 3}, 3, "any", {FALSE}, "any", B1All, 100000)}
-             [] n = 3 -> {Fam({1, 2}, 5, "any", {FALSE}, "all", {"none"}, 100000),
+             [] n = 3 -> {Fam({1, 2}, 1, "any", {FALSE}, "topall", {"none"}, 100000),
+                          Fam({1, 2}, 5, "spin", {FALSE}, "all", {"none"}, 100000),
                           Fam({1, 2}, 1, "any", {TRUE}, "all", {"none"}, 100000),
                           Fam({2, 3}, 0, "spin", {FALSE}, "all", {"none"}, 2000),
                           Fam({2}, 0, "any", {FALSE}, "none", B1All, 100000)}
-             [] n = 4 -> {Fam({1, 2}, 1, "spin", {FALSE}, "all", {"none"}, 2500)}
+             [] n = 4 -> {Fam({1, 2}, 1, "spin", {FALSE}, "none", {"none"}, 2500)}
              [] OTHER -> {}
 
 AlSet(n, o, sz) ==
     IF o.al = "any" THEN [1..n -> {0, 1}]
     ELSE {[l \in 1..n |-> 0], [l \in 1..n |-> IF sz[1 + l] > 1 THEN 1 ELSE 0]}
 SwSet(n, o) ==
+    \* which decays list their daughters in the other order: any subset / none or
+    \* all / none, the top decay, all ("A: [[D, R_BC]]" in a decay card)
     IF o.sw = "any" THEN SUBSET (1..(n - 1))
-    ELSE IF o.sw = "all" THEN {{}, 1..(n - 1)} ELSE {{}}
+    ELSE IF o.sw = "all" THEN {{}, 1..(n - 1)}
+    ELSE IF o.sw = "topall" THEN {{}, {1}, 1..(n - 1)} ELSE {{}}
 SzSet(n, o) == {sz \in [1..(2 * n - 1) -> o.sizes] : Cardinality({i \in 1..(2 * n - 1) : sz[i] = 1}) <= o.ones}
 
 ProgramsF(n, o) ==
